@@ -3,7 +3,7 @@
    move suppression inside a block) is the executable model Cisco/IosAcl.v, tied
    to the implementation by exact comparison of the emitted numbers and executed
    on the strict numbered-ACL device; see DESIGN.md for what is proved. *)
-From Coq Require Import List NArith.
+From Coq Require Import List NArith Lia.
 From NA Require Import Cisco.IosAcl Cisco.IosAclProofs.
 Import ListNotations.
 
@@ -15,3 +15,27 @@ Theorem C02_ios_example_converges :
     end.
 Proof. exact ios_example. Qed.
 Print Assumptions C02_ios_example_converges.
+
+(* For every edit script in which no line occurs twice (so that nothing is moved)
+   and every inserted run has fewer than 10000 lines: all numbered commands are
+   accepted by the device ACL (resequenced to 10000, 20000, ...) and the result
+   is exactly the target ACL.  Scripts with repeated lines (moves, the
+   direction-aware suppression inside a block) are not covered by this theorem;
+   for them the model is evaluated per case. *)
+From NA Require Import Cisco.IosAclFresh.
+Theorem C02_ios_fresh_script_converges_partial :
+  forall m cs, fresh m -> short_runs m 0 -> diff_ios m = Some cs ->
+  exists l', iexec_all (reseq (listA m)) cs = Some l' /\ map snd l' = listB m.
+Proof. exact ios_fresh_converges. Qed.
+Print Assumptions C02_ios_fresh_script_converges_partial.
+
+(* the hypotheses are satisfiable by a script that inserts, keeps and deletes *)
+Example C02_fresh_example :
+  let m := [(Keep, P 1); (Add, D 7); (Add, P 8); (Drop, P 2); (Keep, P 3); (Add, P 9)] in
+  fresh m /\ short_runs m 0 /\ exists cs, diff_ios m = Some cs /\ cs <> [].
+Proof.
+  cbv zeta. split; [|split].
+  - unfold fresh. cbn. repeat constructor; cbn; intuition discriminate.
+  - cbn. repeat split; lia.
+  - eexists. split; [vm_compute; reflexivity | discriminate].
+Qed.
